@@ -1065,9 +1065,18 @@ def run(ctx):
     check_main_batch(ctx, [dict(c) for c in CORPUS_MAIN])
     check_fn_batch(ctx, gen_fn_cases(ctx, 250 if quick else 14000))
     check_main_batch(ctx, gen_main_cases(ctx, 60 if quick else 900))
+    # the tools as processes: one wrong symbol in the path field of an entry (within its intra-ecc) — the entry must still reach
+    # ITS file when correction is restricted with -e (the list names the true path), and when the damaged field happens to spell
+    # a sibling file of the same size (frames/f1.raw -> f3.raw), with the victim intact (nothing written) and damaged (repaired)
+    from props import cli_proc
+    cli_proc.stream(ctx, ['C01-header-efilepath', 'C01-whole-efilepath', 'C03-header-sibling', 'C03-whole-sibling',
+                          'C01-header-sibling', 'C01-whole-sibling'])
 
 
 def replay_case(ctx, case):
+    if case.get('kind') == 'cli-process':
+        from props import cli_proc
+        return cli_proc.replay(case)
     if case.get('kind') == 'main':
         v = check_main_batch(ctx, [case], record=False)[0]
     elif case.get('kind') == 'micro':
@@ -1086,6 +1095,8 @@ def _fails(ctx, case):
 
 
 def shrink(ctx, case):
+    if case.get('kind') == 'cli-process':
+        return case
     cur = json.loads(json.dumps(case))
     improved = True
     budget = 40
@@ -1125,6 +1136,8 @@ def classify(case, detail):
        delimiter before offset |p|, i.e. p = FA FF or FA FF FA FF), in an otherwise undamaged or within-bound entry."""
     import re
     paths = []
+    if case.get('kind') == 'cli-process':
+        return None
     if case.get('kind') == 'main':
         why = (detail.get('why') or (detail.get('detail') or {}).get('why') or '') if isinstance(detail, dict) else ''
         idx = set(int(x) for x in re.findall(r'entry (\d+):', why))
